@@ -117,6 +117,51 @@ fn wal_append_after_tail(tail: &str) {
     }
 }
 
+/// edge-free-incoming: node-only commit, compact(), then an incoming traversal (C05); and the same through bulkload (C30).
+fn edge_free_incoming(bulk: bool) {
+    let d = tempfile::tempdir().unwrap();
+    let p = d.path().join("g");
+    let db = if bulk {
+        let nodes = vec![nervusdb::BulkNode {
+            external_id: 1,
+            label: "A".to_string(),
+            properties: Default::default(),
+        }];
+        nervusdb::bulkload(&p, nodes, Vec::new()).unwrap();
+        Db::open(&p).unwrap()
+    } else {
+        let db = Db::open(&p).unwrap();
+        w(&db, "CREATE (:A {x:1})").unwrap();
+        db.compact().unwrap();
+        db
+    };
+    let r = std::panic::catch_unwind(std::panic::AssertUnwindSafe(|| {
+        q(&db, "MATCH (a)<-[r]-(b) RETURN count(r) AS c")
+    }));
+    match r {
+        Err(_) => report("edge-free-incoming", true, "incoming traversal panicked".into()),
+        Ok(rows) => {
+            let ok = matches!(&rows, Ok(rs) if rs.len() == 1 && rs[0][0].1 == Value::Int(0));
+            report("edge-free-incoming", !ok, format!("{:?}", rows));
+        }
+    }
+}
+
+/// id-collision <c1>: statement A creates c1+1 nodes, statement B creates one more (run under the clock shim).
+fn id_collision(c1: &str) {
+    let d = tempfile::tempdir().unwrap();
+    let db = Db::open(d.path().join("g")).unwrap();
+    let a = w(&db, &format!("UNWIND range(0, {c1}) AS i CREATE (:A)"));
+    let b = w(&db, "CREATE (:B)");
+    let n = q(&db, "MATCH (n) RETURN count(n) AS c");
+    let failed = a.is_err() || b.is_err();
+    report(
+        "id-collision",
+        failed,
+        format!("statement A => {:?}, statement B => {:?}, nodes => {:?}", a, b, n),
+    );
+}
+
 /// query <cypher>: prints rows (used by several E2 replays that only need one read query on an empty db).
 fn query(cy: &str) {
     let d = tempfile::tempdir().unwrap();
@@ -131,6 +176,8 @@ fn main() {
         "index-eq" => index_eq(&arg(2), &arg(3)),
         "wal-tail" => wal_tail(&arg(2)),
         "wal-append-after-tail" => wal_append_after_tail(&arg(2)),
+        "edge-free-incoming" => edge_free_incoming(arg(2) == "bulk"),
+        "id-collision" => id_collision(&arg(2)),
         "query" => query(&arg(2)),
         _ => {
             eprintln!("unknown witness");
